@@ -8,7 +8,7 @@ import numpy as np
 import mygrad as mg
 
 from .. import engcheck, progs
-from ..core import Ctx, Outcome, Violation
+from ..core import Ctx, Outcome, Violation, stable_hash
 
 ID = "C10"
 LEVEL = "proof"
@@ -201,6 +201,112 @@ def _set(a, c):
     return y * a
 
 
+def api_flag_cases(only=None):
+    """the constant rule at the public API, beyond the program fragment: (a) an in-place target keeps its own flag
+    whatever `constant=` is passed along with `out=`; (b) functions of several tensors, sequence functions and calls that
+    change nothing (NumPy hands back its input) honour an explicit `constant=`; in each case the gradients are those of
+    the flags: a constant result transmits nothing, a non-constant one transmits.  -> (number of cases, [(name, msg)])"""
+    import itertools
+
+    fails, n = [], 0
+
+    def T(c, *shape):
+        return mg.tensor(np.arange(float(np.prod(shape) or 1)).reshape(shape) + 1.0, constant=c)
+
+    # (a) in-place targets
+    for tconst, kw, view, form in itertools.product((False, True), (None, True, False), (False, True), ("binary", "unary", "func-out")):
+        name = f"inplace-target|target_constant={tconst}|constant={kw}|{'view' if view else 'base'}|{form}"
+        if form == "func-out" and kw is not None:
+            continue  # (NumPy's own spelling takes no constant=)
+        if only is not None and name != only:
+            continue
+        n += 1
+        base = T(tconst, 4)
+        t = base[:2] if view else base
+        a = T(False, 2 if view else 4)
+        kws = {} if kw is None else {"constant": kw}
+        try:
+            if form == "binary":
+                r = mg.multiply(a, 3.0, out=t, **kws)
+            elif form == "unary":
+                r = mg.negative(a, out=t, **kws)
+            else:
+                r = np.add(a, a, out=t, **kws)
+        except Exception as e:  # noqa: BLE001
+            fails.append((name, f"raised {type(e).__name__}: {str(e)[:80]}"))
+            continue
+        if r is not t:
+            fails.append((name, "the out= call did not return its target"))
+        if t.constant != tconst or base.constant != tconst:
+            fails.append((name, f"the in-place target's flag changed: target {tconst} -> {t.constant}, base {tconst} -> {base.constant}"))
+            continue
+        (base * 2.0).sum().backward()
+        if tconst:
+            if a.grad is not None or base.grad is not None:
+                fails.append((name, "a constant in-place target transmitted / acquired a gradient"))
+        else:
+            if a.grad is None:
+                fails.append((name, "a non-constant in-place target did not transmit the gradient to the operand written into it"))
+
+    # (b) explicit constant= on functions of several tensors / sequences / no-op calls
+    two = lambda c: (T(c, 3), T(c, 3))
+    FUNCS = [
+        ("atleast_1d-multi", lambda xs, kw: mg.atleast_1d(*xs, **kw)),
+        ("atleast_2d-multi", lambda xs, kw: mg.atleast_2d(*xs, **kw)),
+        ("atleast_3d-multi", lambda xs, kw: mg.atleast_3d(*xs, **kw)),
+        ("atleast_1d-single", lambda xs, kw: mg.atleast_1d(xs[0], **kw)),
+        ("concatenate", lambda xs, kw: mg.concatenate(xs, **kw)),
+        ("stack", lambda xs, kw: mg.stack(xs, **kw)),
+        ("where", lambda xs, kw: mg.where(np.array([True, False, True]), xs[0], xs[1], **kw)),
+        ("maximum", lambda xs, kw: mg.maximum(xs[0], xs[1], **kw)),
+        ("add_sequence", lambda xs, kw: mg.add_sequence(xs[0], xs[1], **kw)),
+        ("multiply_sequence", lambda xs, kw: mg.multiply_sequence(xs[0], xs[1], **kw)),
+        ("einsum", lambda xs, kw: mg.einsum("i,i->i", xs[0], xs[1], **kw)),
+        ("matmul", lambda xs, kw: mg.matmul(xs[0], xs[1], **kw)),
+        ("clip", lambda xs, kw: mg.clip(xs[0], 1.5, 2.5, **kw)),
+        ("reshape-same", lambda xs, kw: mg.reshape(xs[0], (3,), **kw)),
+        ("squeeze-nothing", lambda xs, kw: mg.squeeze(xs[0], **kw)),
+        ("transpose-1d", lambda xs, kw: mg.transpose(xs[0], **kw)),
+        ("ravel-1d", lambda xs, kw: mg.ravel(xs[0], **kw)),
+        ("expand_dims", lambda xs, kw: mg.expand_dims(xs[0], 0, **kw)),
+        ("broadcast_to-same", lambda xs, kw: mg.broadcast_to(xs[0], (3,), **kw)),
+        ("sum", lambda xs, kw: mg.sum(xs[0], **kw)),
+        ("positive", lambda xs, kw: mg.positive(xs[0], **kw)),
+    ]
+    for (fname, f), inconst, kw in itertools.product(FUNCS, (False, True), (True, False)):
+        name = f"explicit-flag|{fname}|inputs_constant={inconst}|constant={kw}"
+        if only is not None and name != only:
+            continue
+        n += 1
+        xs = two(inconst)
+        try:
+            r = f(xs, {"constant": kw})
+        except Exception as e:  # noqa: BLE001
+            fails.append((name, f"raised {type(e).__name__}: {str(e)[:80]}"))
+            continue
+        outs = list(r) if isinstance(r, (list, tuple)) else [r]
+        bad = [i for i, o in enumerate(outs) if not isinstance(o, mg.Tensor) or o.constant != kw]
+        if bad:
+            fails.append((name, f"output {bad[0]} has constant={getattr(outs[bad[0]], 'constant', None)} although constant={kw} was passed"))
+            continue
+        L = outs[0]
+        for o in outs[1:]:
+            L = L + o if not kw else L
+        try:
+            (outs[0] * 1.0).sum().backward() if len(outs) == 1 else sum((o * 1.0).sum() for o in outs).backward()
+        except Exception as e:  # noqa: BLE001
+            fails.append((name, f"backward raised {type(e).__name__}"))
+            continue
+        got = [x.grad is not None for x in xs[: (2 if fname not in ("atleast_1d-single", "clip", "reshape-same", "squeeze-nothing",
+               "transpose-1d", "ravel-1d", "expand_dims", "broadcast_to-same", "sum", "positive") else 1)]]
+        want = (not kw) and (not inconst)
+        if any(g != want for g in got):
+            fails.append((name, f"inputs received gradients {got}; with inputs constant={inconst} and the result constant={kw} every one must be {want}"))
+        if any(o.grad is not None for o in outs) and kw:
+            fails.append((name, "a result made constant acquired a .grad"))
+    return n, fails
+
+
 def nontrivial(prog):
     nconst = sum(1 for st in prog if st[0] == "leaf" and st[4]) + sum(1 for st in prog if st[0] in ("bin", "un", "sum", "view", "take") and st[-1] is not None)
     nvar = sum(1 for st in prog if st[0] == "leaf" and not st[4])
@@ -212,7 +318,9 @@ def run(ctx: Ctx) -> Outcome:
     out, results = engcheck.run_programs(ctx, n, dict(GEN, n_stmts=ctx.n(9, 16)), "oracle", nontrivial)
     out.rule = ("random programs with every mix of constant / non-constant leaves and constant=None/True/False on ops (45% "
                 "constants), views, in-place targets, one final backward; non-trivial = >=1 constant and >=1 non-constant "
-                "participant; plus the dtype gate over all integer/bool/float dtypes")
+                "participant; plus the dtype gate over all integer/bool/float dtypes, constant operands sharing an operand's ndarray, "
+                "and the flag rule at the public API: in-place targets under every explicit constant= (base / view, three spellings) "
+                "and an explicit constant= on 21 functions of several tensors, sequence functions and calls that change nothing")
     engcheck.report(out, results, "C10", oracle)
     for cls, msg in gate_cases():
         out.violations.append(Violation(f"C10|gate|{cls}", msg, {"kind": "gate", "class": cls}))
@@ -225,6 +333,16 @@ def run(ctx: Ctx) -> Outcome:
             seen_sh.add(name)
             out.violations.append(Violation(f"C10|shared-array-constant|{name}", msg, {"kind": "shared", "name": name}))
     out.stats["shared_array_constant_cases"] = nsh
+    napi, fapi = api_flag_cases()
+    out.evaluations += napi
+    out.stats["api_flag_cases"] = napi
+    for k in range(napi):
+        out.nontrivial.add(stable_hash(["api-flag", k]))
+    seen_api = set()
+    for name, msg in fapi:
+        if name not in seen_api:
+            seen_api.add(name)
+            out.violations.append(Violation(f"C10|api-flag|{name}", f"{name}: {msg}", {"kind": "api", "name": name}))
     out.assumptions = ["the dtype gate (integer/bool always constant) is also part of C17's lattice model"]
     return out
 
@@ -233,6 +351,10 @@ def replay(data) -> bool:
     r = data["replay"]
     if r.get("kind") == "shared":
         f = [x for x in shared_array_cases()[1] if x[0] == r["name"]]
+        print(f)
+        return bool(f)
+    if r.get("kind") == "api":
+        f = api_flag_cases(only=r["name"])[1]
         print(f)
         return bool(f)
     if r.get("kind") == "gate":
